@@ -10,8 +10,8 @@ derived from the same width constants; (c) the shard tag is the owning shard (C1
 Noted, not armed: ConditionEvaluator's synthetic id (zone_id << 32 | row) has no segment component.
 Does NOT decide behaviour under real clocks, > 4096 events/ms across a wait, or restart with a clock behind the last persisted id (last_millis is not recovered).
 """
-FLOOR = 4
-REQUIRED = ["C18.a", "C18.b1", "C18.b2", "C18.b3"]
+FLOOR = 5
+REQUIRED = ["C18.a", "C18.b1", "C18.b2", "C18.b3", "C18.d"]
 
 
 def const_val(F, path):
@@ -217,5 +217,55 @@ def run(ctx):
                 bad.append(("unmasked:%s" % mk, "a component is not masked with %s: it can spill into the neighbouring field" % mk, None))
         return bad
     ctx.run("C18.b3", "K6 TABLE", "EventId bit layout", "timestamp | shard | sequence fields tile the 64 bits without overlap", b3)
+
+    def d(inst):
+        """A segment row gets a synthetic id (zone_id << 32 | row) only when its zone has no id column. Whether a column "has no
+        rows" must be decided over every representation a ColumnValues can have (typed i64/u64/f64/bool lanes or byte ranges), as
+        ColumnValues::len does; ColumnValues::is_empty looks at the byte ranges only, so a typed u64 id column counts as missing."""
+        bad = []
+        ln = F.fn("ColumnValues::len")
+        full = self_fields_read(ln)
+        if len(full) < 2:
+            raise AnchorMissing("ColumnValues::len reads the typed lanes and the ranges (found %s)" % sorted(full))
+        ie = F.fn("ColumnValues::is_empty")
+        part = self_fields_read(ie)
+        inst.sites.append("ColumnValues::len reads %s; is_empty reads %s" % (sorted(full), sorted(part)))
+        W = set()
+        if not full <= part:
+            W.add(ie.key)
+            # thin wrappers (`fn is_empty(&self) { self.values.is_empty() }`) are partial as well
+            grew = True
+            while grew:
+                grew = False
+                for k in F.keys():
+                    if k in W or k.startswith("bin:") or not k.endswith("::is_empty"):
+                        continue
+                    cs = [c for c in F.fn_exact(k).calls if not c.cleanup]
+                    if len(cs) == 1 and cs[0].callee in W:
+                        W.add(k)
+                        grew = True
+        n = 0
+        for k in F.keys():
+            if k in W or k.startswith("bin:"):
+                continue
+            b = F.fn_exact(k)
+            for c in b.calls:
+                if not c.cleanup and c.callee in W:
+                    n += 1
+                    bad.append(("column-emptiness-from-ranges-only:%s" % k.split("::{closure")[0].split("::")[-1],
+                                "%s decides whether a column has rows with %s, which looks at the byte ranges only: a typed column (the u64 event_id column of every flushed segment) counts as empty" % (
+                                    k.split("::")[-2] + "::" + k.split("::")[-1] if "closure" in k else k.split("::")[-1], c.nname.split("::")[-2] + "::is_empty"), sp(b, c.bb)))
+        inst.sites.append("%d partial emptiness predicate(s) %s, %d production call(s)" % (len(W), sorted(x.split("::")[-2] for x in W), n))
+        if bad:
+            return bad
+        # the decision itself: the evaluator asks for the row count of the id column
+        ev = F.fn("ConditionEvaluator::evaluate_zones_with_limit")
+        fam = [ev] + [F.fn_exact(k) for k in F.keys() if k.startswith(ev.key.split("::{closure")[0] + "::{closure")]
+        lens = [(b, c) for b in fam for c in b.calls if not c.cleanup and c.nname.endswith("ColumnValues::len")]
+        if not lens:
+            raise AnchorMissing("site: ColumnValues::len in evaluate_zones_with_limit (the id-column-missing decision)")
+        inst.sites += [sp(b, c.bb) for b, c in lens[:3]]
+        return bad
+    ctx.run("C18.d", "K10 READS", "ConditionEvaluator::evaluate_zones_with_limit / ColumnValues", "an id column counts as missing only when it has no rows in any representation", d)
 
     ctx.note("ConditionEvaluator::evaluate_zones_with_limit synthesises (zone_id << 32 | row) when event_id is missing/zero; not armed (reachability of a missing id column not demonstrated)")
